@@ -1470,3 +1470,165 @@ Proof.
 Qed.
 
 End Final.
+
+(* ------------------------------------------------------------------ *)
+(* uv_try_write never overtakes                                        *)
+(* ------------------------------------------------------------------ *)
+Lemma sum_rem_pos l r : In r l -> 0 < req_size r -> 0 < sum_rem l.
+Proof. induction l; simpl; [tauto|]. intros [->|H] Hp; [lia|]. specialize (IHl H Hp). lia. Qed.
+
+Theorem try_write_never_overtakes_inv s bufs :
+  Inv1 s -> (exists r, In r (live s) /\ 0 < req_size r) ->
+  api_try s bufs =
+    ev (ETryRet (next_id s) UV_EAGAIN) (ev (ETry (next_id s) (sumN bufs)) (set_next_id (S (next_id s)) s)).
+Proof.
+  intros [Hs _ _ _] (r & Hr & Hp). unfold api_try.
+  change (wqs (ev (ETry (next_id s) (sumN bufs)) (set_next_id (S (next_id s)) s))) with (wqs s).
+  pose proof (sum_rem_pos _ _ Hr Hp). destruct (N.eqb_spec (wqs s) 0); [lia|]. reflexivity.
+Qed.
+
+(* ------------------------------------------------------------------ *)
+(* invariant, part 4: shutdown                                         *)
+(* ------------------------------------------------------------------ *)
+Definition q_ret (e : event) : Prop :=
+  match e with ERet _ c => c = UV_EPIPE \/ c = UV_EBADF | _ => True end.
+
+Record Inv4 (s : st) : Prop := {
+  s_shut : In (EShut 0%Z) (tr s) -> writable s = false;
+  s_ret : forall l1 l2, tr s = l1 ++ EShut 0%Z :: l2 -> Forall q_ret l1;
+  s_sys : forall a, In (ESysShut a) (tr s) -> wq s = [] /\ writable s = false;
+  s_nochunk : forall a l1 l2, tr s = l1 ++ ESysShut a :: l2 -> Forall no_chunk l1;
+  s_cb : forall c, In (EShutCb c) (tr s) -> wq s = [] /\ writable s = false;
+  s_cb_nochunk : forall c l1 l2, tr s = l1 ++ EShutCb c :: l2 ->
+                 Forall (fun e => no_chunk e /\ match e with ERet _ x => x <> 0%Z | _ => True end) l1
+}.
+
+Lemma after_cons (Q : event -> Prop) X e t :
+  (forall l1 l2, t = l1 ++ X :: l2 -> Forall Q l1) -> (In X t -> Q e) ->
+  (forall l1 l2, e :: t = l1 ++ X :: l2 -> Forall Q l1).
+Proof.
+  intros H He l1 l2 E. destruct l1 as [|e' l1]; [constructor|].
+  simpl in E. inversion E; subst. constructor.
+  - apply He. apply in_or_app; right; left; auto.
+  - eapply H; eauto.
+Qed.
+
+Lemma check_some_code s e : check_before_write s = Some e -> e = UV_EPIPE \/ e = UV_EBADF.
+Proof.
+  unfold check_before_write. destruct (fdopen s), (writable s); simpl; intros H; inversion H; auto.
+Qed.
+
+(* adding an event that is none of the ones Inv4 speaks about *)
+Definition inert (e : event) : Prop :=
+  match e with EShut _ | ESysShut _ | EShutCb _ | EChunk _ _ _ | ERet _ _ => False | _ => True end.
+
+Lemma Inv4_event s e :
+  (forall X, In X (tr s) -> match X with
+                            | EShut 0%Z => q_ret e
+                            | ESysShut _ => no_chunk e
+                            | EShutCb _ => no_chunk e /\ match e with ERet _ x => x <> 0%Z | _ => True end
+                            | _ => True end) ->
+  (match e with
+   | EShut 0%Z => writable s = false
+   | ESysShut _ | EShutCb _ => wq s = [] /\ writable s = false
+   | _ => True end) ->
+  Inv4 s -> Inv4 (ev e s).
+Proof.
+  intros Hold Hnew [A B C D E F]. constructor; cbn.
+  - intros [H|H]; auto. subst e. exact Hnew.
+  - apply after_cons; [exact B | intros H; apply (Hold _ H)].
+  - intros a [H|H]; eauto. subst e. exact Hnew.
+  - intros a. apply after_cons; [apply D | intros H; apply (Hold _ H)].
+  - intros c [H|H]; eauto. subst e. exact Hnew.
+  - intros c. apply after_cons; [apply F | intros H; apply (Hold _ H)].
+Qed.
+
+Lemma Inv4_inert s e : inert e -> Inv4 s -> Inv4 (ev e s).
+Proof.
+  intros Hi. apply Inv4_event.
+  - intros X _. destruct X as [| | | | | | z | | | |]; auto; try (destruct e; simpl in *; tauto).
+    destruct z; auto. destruct e; simpl in *; tauto.
+  - destruct e; simpl in *; tauto.
+Qed.
+
+(* a state change that keeps the trace, does not make the stream writable and does not grow wq *)
+Lemma Inv4_state s s' :
+  tr s' = tr s -> (writable s = false -> writable s' = false) -> (wq s = [] -> wq s' = []) ->
+  Inv4 s -> Inv4 s'.
+Proof.
+  intros Et Hw Hq [A B C D E F]. constructor; rewrite ?Et; auto.
+  - intros a H. destruct (C a H). auto.
+  - intros c H. destruct (E c H). auto.
+Qed.
+
+Lemma Inv4_prim s s' : prim s s' -> Inv4 s -> Inv4 s'.
+Proof.
+  intros P I. destruct P; unfold call0, finish_head, flush in *.
+  - destruct H as (E1 & _ & _ & _ & _ & E2 & _ & _ & _ & _ & E3).
+    apply (Inv4_state s); auto; congruence.
+  - (* chunk: impossible after shutdown(2) / the shutdown callback *)
+    apply Inv4_event; [ | simpl; auto | ].
+    + intros X HX. cbn in HX. destruct X as [| | | | | | z | a | c | |]; simpl; auto.
+      * destruct z; simpl; auto.
+      * destruct I as [_ _ C _ _ _]. destruct (C a HX) as [Hq _]. rewrite Hq in H. discriminate.
+      * destruct I as [_ _ _ _ E _]. destruct (E c HX) as [Hq _]. rewrite Hq in H. discriminate.
+    + apply (Inv4_state s); auto. cbn. intros Hq. rewrite Hq in H. discriminate.
+  - apply (Inv4_state s); auto. cbn. intros Hq. rewrite Hq in H. discriminate.
+  - apply (Inv4_state s); auto. cbn. intros Hq. rewrite Hq in H. discriminate.
+  - (* uv_write refused *)
+    apply Inv4_event; [ | | simpl; auto].
+    + intros X HX. cbn in HX. destruct HX as [HX|HX]; [subst X; simpl; auto|].
+      destruct X as [| | | | | | z | a | c | |]; simpl; auto.
+      * destruct z; simpl; auto. apply (check_some_code _ _ H).
+      * split; auto. pose proof (check_some_neg _ _ H). lia.
+    + apply Inv4_inert; simpl; auto. apply (Inv4_state s); auto.
+  - (* enqueue: the stream is writable, so no shutdown so far *)
+    destruct (check_none _ H) as [_ Hw].
+    apply (Inv4_state (ev (EWrite (next_id s) (sumN bufs)) (set_next_id (S (next_id s)) s))); auto.
+    + cbn. rewrite Hw. discriminate.
+    + apply Inv4_inert; simpl; auto. apply (Inv4_state s); auto.
+    + apply Inv4_inert; simpl; auto. apply (Inv4_state s); auto.
+  - (* uv_write returned 0 *)
+    apply Inv4_event; [ | simpl; auto | exact I].
+    intros X HX. destruct X as [| | | | | | z | a | c | |]; simpl; auto.
+    + destruct z; simpl; auto. destruct I as [A _ _ _ _ _]. rewrite (A HX) in H. discriminate.
+    + destruct I as [_ _ _ _ E _]. destruct (E c HX) as [_ Hw]. rewrite Hw in H. discriminate.
+  - apply Inv4_inert; simpl; auto. apply Inv4_inert; simpl; auto. apply (Inv4_state s); auto.
+  - (* try_write wrote *)
+    apply Inv4_inert; simpl; auto.
+    apply Inv4_event; [ | simpl; auto | ].
+    + intros X HX. cbn in HX. destruct HX as [HX|HX]; [subst X; simpl; auto|].
+      destruct X as [| | | | | | z | a | c | |]; simpl; auto.
+      * destruct z; simpl; auto.
+      * destruct I as [_ _ C _ _ _]. destruct (C a HX) as [_ Hw]. rewrite Hw in H0. discriminate.
+      * destruct I as [_ _ _ _ E _]. destruct (E c HX) as [_ Hw]. rewrite Hw in H0. discriminate.
+    + apply Inv4_inert; simpl; auto. apply (Inv4_state s); auto.
+  - apply Inv4_event; [ | simpl; auto | exact I].
+    intros X HX. destruct X as [| | | | | | z | a | c | |]; simpl; auto. destruct z; simpl; auto.
+  - apply (Inv4_state s); auto.
+  - apply Inv4_event; [ | simpl; auto | exact I].
+    intros X HX. destruct X as [| | | | | | z | a | c | |]; simpl; auto. destruct z; simpl; auto.
+  - apply (Inv4_state s); auto.
+  - apply (Inv4_state s); auto.
+  - destruct (r_freed r).
+    + apply Inv4_inert; simpl; auto. apply (Inv4_state s); auto.
+    + apply Inv4_inert; simpl; auto. apply (Inv4_state s); auto.
+  - apply (Inv4_state s); auto.
+  - apply Inv4_event; [ | simpl; auto | exact I].
+    intros X HX. destruct X as [| | | | | | z | a' | c | |]; simpl; auto. destruct z; simpl; auto.
+  - apply (Inv4_state s); auto.
+  - apply Inv4_event; [ | simpl; auto | exact I].
+    intros X HX. destruct X as [| | | | | | z | a' | c' | |]; simpl; auto. destruct z; simpl; auto.
+  - apply (Inv4_state s); auto.
+  - apply Inv4_inert; simpl; auto.
+  - apply Inv4_inert; simpl; auto.
+Qed.
+
+Lemma Inv4_steps s s' : steps s s' -> Inv4 s -> Inv4 s'.
+Proof. induction 1; eauto using Inv4_prim. Qed.
+
+Lemma Inv4_init blk o sa pw : Inv4 (init blk o sa pw).
+Proof.
+  constructor; unfold init; cbn; try tauto;
+    intros; match goal with H : [] = ?l ++ _ :: _ |- _ => destruct l; discriminate end.
+Qed.
